@@ -124,8 +124,9 @@ def tlc(module, cfg_text, wd, name=None, workers=None, timeout=900, extra=(), du
         cmd += ["-seed", str(seed)]
     cmd += list(extra) + [module + ".tla"]
     env = dict(os.environ)
-    if java_opts:
-        env["JAVA_TOOL_OPTIONS"] = java_opts
+    jtmp = os.path.join(rundir, "jtmp")       # keep the JVM's scratch files (tlc-*, SANY*) inside the run directory
+    os.makedirs(jtmp, exist_ok=True)
+    env["JAVA_TOOL_OPTIONS"] = ((java_opts + " ") if java_opts else "") + "-Djava.io.tmpdir=" + jtmp
     t0 = time.time()
     p = subprocess.run(cmd, cwd=rundir, env=env, stdout=subprocess.PIPE, stderr=subprocess.STDOUT, text=True)
     r = TlcResult()
